@@ -106,6 +106,11 @@ const (
 func (E%[2]d) String() string { return "" }
 
 var S%[2]d T%[2]d
+
+type W%[2]d struct {
+	T%[2]d
+	N int
+}
 `, name, k)
 }
 
@@ -142,7 +147,7 @@ func useDecls(t *rapid.T, local string, k int, u *int) []string {
 	for i := 0; i < n; i++ {
 		*u++
 		id := *u
-		kind := rapid.IntRange(0, 21).Draw(t, "use")
+		kind := rapid.IntRange(0, 22).Draw(t, "use")
 		if i == 0 && kind == 7 {
 			kind = 0 // the first use must really use the package (else: imported and not used)
 		}
@@ -196,6 +201,10 @@ func useDecls(t *rapid.T, local string, k int, u *int) []string {
 			} else {
 				out = append(out, fmt.Sprintf("func u%d(%s %s) int {\n\treturn %s.M() + %s.A\n}", id, local, q(local, fmt.Sprintf("T%d", k)), local, local))
 			}
+		case 21:
+			// keyed literal of a struct with an embedded field: the key is a field name that is spelled
+			// like a type of the package
+			out = append(out, fmt.Sprintf("var u%d = %s{T%d: %s{A: 1}, N: 2}", id, q(local, fmt.Sprintf("W%d", k)), k, q(local, fmt.Sprintf("T%d", k))))
 		case 18, 19:
 			// self-contained statements, each tagged by a string literal, that can be moved into
 			// any other function body
